@@ -60,4 +60,8 @@ CHECKS = {
         text='The provenance invariant (one entry per parameter plus +depths, non-empty duplicate-free lists of callables that have a depth and declare the name, exact contributors on role-consistent merge inputs, single truthful contributor for embed/forwards, input depths 0/1/i, no stray depth keys, wrapper-for-wrapped swap) holds on every merge result over all 1.7M ordered pairs, every embed result over 1.15M (outer, inner, flags) cases incl. same-named inner stars, 800k mask/forwards/3-ary results, 32k Hypothesis cases, 500 generated forwarding chains (functions, methods, wraps, partial, modifiers, forwards_to, decorator; depth increase and min-depth on a diamond) and a list of standard-library callables.',
         design_ref='DESIGN.md 2/C08', technique='bounded-exhaustive enumeration + Hypothesis with an invariant oracle over result.sources (ground truth: which input callable declares which name, known by construction)',
         note='"Declares" = own def parameters or what signatures.signature(obj) advertises (a functools.wraps wrapper stands for both). One known finding (F14, duplicates from merging two forwarding calls) is excluded by bucket.'),
+    'C10': dict(
+        text='The default / annotation / kind / order rules hold for every parameter of merge results on name-aligned inputs (all aligned pairs of the <=2-named universe under two default/annotation taggings; 400k Hypothesis cases: n=2,3 aligned tuples with tagged defaults incl. None and equal-but-distinct objects, renamed positionals), of embed/forwards results (single truthful contributor, outer-before-inner per kind, defaults dropped only for outer positionals followed by a required inner positional, partial => None), of mask results and partial objects (identity of bound defaults).',
+        design_ref='DESIGN.md 2/C10', technique='Hypothesis constructive generation + bounded enumeration vs reference rules written from the property (contributors known by construction)',
+        note='Star-parameter annotations are only required not to be invented (which stars a result star stands for is not pinned down). One known finding (F8, 3-way annotation fold) is excluded by bucket.'),
 }
